@@ -270,6 +270,9 @@ def rule_r2(ctx: Ctx) -> None:
                 ok = True
             elif isinstance(p, (ast.For, ast.comprehension)) and p.iter is g:
                 ok = True
+            elif isinstance(p, ast.Call) and g in p.args and consumer in ("chain", "from_iterable", "islice", "accumulate", "starmap", "zip_longest", "product") \
+                    and _eager_context(p):
+                ok = True      # handed to a lazy combinator whose result is consumed on the spot
             elif isinstance(p, ast.Starred):
                 ok = True
             elif isinstance(p, (ast.Assign, ast.AnnAssign, ast.Return, ast.Yield)) or (isinstance(p, ast.Call) and g in p.args) \
@@ -537,6 +540,13 @@ def rule_r4(ctx: Ctx) -> None:
                 if ok is False:
                     break
             n += k
+            if (verdict is None or not k) and meth == "choose_production_alternatives":
+                # the affine engine does not follow this spelling (explicit loops, aliases): exhaustive small-scope model instead
+                from .choosermodel import chooser_verdicts
+                _s, _c, member, nm_ = chooser_verdicts(ctx, f, exact=False)
+                if member[0] is not None:
+                    verdict, why, k = member[0], member[1], max(k, 1)
+                    n += nm_
             ctx.ob("C01.R4", f, f.node, f"{f.cls.name if f.cls else ''}.{meth} returns one of the offered alternatives", verdict if k else None,
                    why if verdict is not True else "", witness={"paths": k})
     ctx.floor("C01.R4", n, 7, "interpreted chooser paths")
